@@ -37,18 +37,6 @@ Qed.
 Lemma le_eq : forall A (r r' : res A), le_res r r' -> r <> OOF -> r' = r.
 Proof. intros A r r' [H|H] N; congruence. Qed.
 
-(* the automation used by every monotonicity proof: both sides have the same shape *)
-Ltac mono_step IH :=
-  first
-    [ apply le_refl
-    | apply le_oof
-    | solve [apply IH]
-    | apply le_bind; [ | intros ? ]
-    | match goal with
-      | |- le_res (match ?x with _ => _ end) _ => destruct x
-      end ].
-Ltac mono IH := repeat (mono_step IH).
-
 (* ------------------------------------------------------------------ generic: lists *)
 Lemma tl_le : forall A (s : list A), (length (tl s) <= length s)%nat.
 Proof. destruct s; cbn; lia. Qed.
@@ -183,6 +171,8 @@ Definition tokpost (s : str) (p : str * ast) : Prop :=
   (is_none (snd p) = true -> fst p = []).
 Definition lenpost {A} (s : str) (p : str * A) : Prop := (length (fst p) <= length s)%nat.
 Definition strpost (s : str) (s' : str) : Prop := (length s' <= length s)%nat.
+Definition somepost (s : str) (p : str * ast) : Prop :=
+  (length (fst p) <= length s)%nat /\ is_none (snd p) = false.
 
 (* ------------------------------------------------------------------ skip *)
 Lemma skip_total : forall fuel ign s, (fuel >= length s + 1)%nat -> post (strpost s) (skip E fuel ign s).
@@ -194,12 +184,6 @@ Proof.
   cbn [tl]. pose proof (read_shifted_comment_le r) as H2.
   eapply post_weaken; [apply IH; cbn [length] in *; lia|].
   intros a Ha. unfold strpost in *. cbn [length] in *; lia.
-Qed.
-
-Lemma skip_mono : forall f ign s, le_res (skip E f ign s) (skip E (S f) ign s).
-Proof.
-  induction f as [|f IH]; intros ign s; [apply le_oof|].
-  cbn [skip]. mono IH.
 Qed.
 
 (* ------------------------------------------------------------------ leaf readers *)
@@ -263,15 +247,15 @@ Proof. intros s. unfold read_op. destruct (starts2 s 92 126 || starts2 s 92 42);
 Hypothesis Hdelim : z_in 59 (delims E) = true.
 
 Definition lex_ok (f : nat) (R : lexfuns) : Prop :=
-  (forall rn ign s, (f >= 16 * length s + 2)%nat -> post (tokpost s) (l_kg_read R rn ign s)) /\
-  (forall d s, (f >= 16 * length s + 4)%nat -> post (lenpost s) (l_read_list R d s)) /\
-  (forall d s acc, (f >= 16 * length s + 3)%nat -> post (lenpost s) (l_read_list_loop R d s acc)).
+  (forall rn ign s, (f >= 6 * length s + 2)%nat -> post (tokpost s) (l_kg_read R rn ign s)) /\
+  (forall d s, (f >= 6 * length s + 4)%nat -> post (lenpost s) (l_read_list R d s)) /\
+  (forall d s acc, (f >= 6 * length s + 3)%nat -> post (lenpost s) (l_read_list_loop R d s acc)).
 
-Ltac okpost := cbn [post]; unfold tokpost, lenpost, ltpost, strpost; cbn [fst snd is_none length tl];
+Ltac okpost := cbn [post]; unfold tokpost, lenpost, ltpost, strpost, somepost in *; cbn [fst snd is_none length tl] in *;
   repeat split; intros; try discriminate; try reflexivity; try lia; try congruence.
 
 Lemma kg_read_body_ok : forall f R, lex_ok f R ->
-  forall rn ign s, (S f >= 16 * length s + 2)%nat -> post (tokpost s) (kg_read_body E f R rn ign s).
+  forall rn ign s, (S f >= 6 * length s + 2)%nat -> post (tokpost s) (kg_read_body E f R rn ign s).
 Proof.
   intros f R (Hkg & Hrl & Hrll) rn ign s Hf. unfold kg_read_body.
   eapply post_bind; [apply skip_total; lia|]. intros s1 Hs1. unfold strpost in Hs1.
@@ -327,7 +311,7 @@ Proof.
 Qed.
 
 Lemma read_list_body_ok : forall f R, lex_ok f R ->
-  forall d s, (S f >= 16 * length s + 4)%nat -> post (lenpost s) (read_list_body E f R d s).
+  forall d s, (S f >= 6 * length s + 4)%nat -> post (lenpost s) (read_list_body E f R d s).
 Proof.
   intros f R (Hkg & Hrl & Hrll) d s Hf. unfold read_list_body.
   eapply post_bind; [apply skip_total; lia|]. intros s1 Hs1. unfold strpost in Hs1.
@@ -335,7 +319,7 @@ Proof.
 Qed.
 
 Lemma read_list_loop_body_ok : forall f R, lex_ok f R ->
-  forall d s acc, (S f >= 16 * length s + 3)%nat -> post (lenpost s) (read_list_loop_body E f R d s acc).
+  forall d s acc, (S f >= 6 * length s + 3)%nat -> post (lenpost s) (read_list_loop_body E f R d s acc).
 Proof.
   intros f R (Hkg & Hrl & Hrll) d s acc Hf. unfold read_list_loop_body.
   destruct (starts1 s d || match s with [] => true | _ :: _ => false end) eqn:Hend.
@@ -349,17 +333,541 @@ Proof.
   eapply post_weaken; [apply Hrll; cbn [length] in *; lia|]. intros p Hp. unfold lenpost in *. lia.
 Qed.
 
-Lemma lex_total : forall f, lex_ok f (lex_iter E f).
+Lemma kg_read_S : forall f rn ign s, kg_read E (S f) rn ign s = kg_read_body E f (lexrec E f) rn ign s.
+Proof. reflexivity. Qed.
+Lemma read_list_S : forall f d s, read_list E (S f) d s = read_list_body E f (lexrec E f) d s.
+Proof. reflexivity. Qed.
+Lemma read_list_loop_S : forall f d s acc, read_list_loop E (S f) d s acc = read_list_loop_body E f (lexrec E f) d s acc.
+Proof. reflexivity. Qed.
+
+Lemma lex_total : forall f, lex_ok f (lexrec E f).
 Proof.
   induction f as [|f IH].
   - repeat split; intros; lia.
-  - cbn [lex_iter]. repeat split; cbn [l_kg_read l_read_list l_read_list_loop]; intros.
-    + apply kg_read_body_ok; assumption.
-    + apply read_list_body_ok; assumption.
-    + apply read_list_loop_body_ok; assumption.
+  - unfold lexrec. repeat split; cbn [l_kg_read l_read_list l_read_list_loop]; intros.
+    + rewrite kg_read_S. apply kg_read_body_ok; assumption.
+    + rewrite read_list_S. apply read_list_body_ok; assumption.
+    + rewrite read_list_loop_S. apply read_list_loop_body_ok; assumption.
 Qed.
 
-Lemma kg_read_total : forall f rn ign s, (f >= 16 * length s + 2)%nat -> post (tokpost s) (kg_read E f rn ign s).
-Proof. intros. apply lex_total. assumption. Qed.
+Lemma kg_read_total : forall f rn ign s, (f >= 6 * length s + 2)%nat -> post (tokpost s) (kg_read E f rn ign s).
+Proof. intros f rn ign s H. exact (proj1 (lex_total f) rn ign s H). Qed.
+
+(* ------------------------------------------------------------------ .comment *)
+Hypothesis Hguard : comment_guard E = true.
+
+Lemma starts_with_cons_nonempty : forall x a s, starts_with (x :: a) s = true -> s <> [].
+Proof. intros x a [|y s] H; cbn in H; congruence. Qed.
+
+Lemma comment_run_total : forall fuel a s j, (fuel >= length s + 1)%nat -> post (fun _ => True) (comment_run E fuel a s j).
+Proof.
+  induction fuel as [|f IH]; intros a s j Hf; [lia|].
+  cbn [comment_run]. rewrite Hguard.
+  destruct a as [|x a']; [cbn; exact I|]. cbn [negb andb].
+  destruct (starts_with (x :: a') s) eqn:Hs; [|cbn; exact I].
+  apply starts_with_cons_nonempty in Hs. destruct s as [|y s']; [congruence|].
+  apply IH. cbn [tl length] in *. lia.
+Qed.
+
+Lemma read_sys_comment_total : forall fuel s a, (fuel >= length s + 1)%nat -> post (strpost s) (read_sys_comment E fuel s a).
+Proof.
+  intros fuel s a Hf. unfold read_sys_comment. destruct (find_sub a s) as [j|]; [|exact I].
+  eapply post_bind; [apply comment_run_total; pose proof (skipn_le _ (S j) s); lia|].
+  intros j' _. cbn. unfold strpost. apply skipn_le.
+Qed.
+
+(* ------------------------------------------------------------------ parser: progress and totality *)
+Definition parse_ok (f : nat) (R : parsefuns) : Prop :=
+  (forall ign s acc, (f >= 6 * length s + 5)%nat -> post (lenpost s) (p_prog_loop R ign s acc)) /\
+  (forall ign s, (f >= 6 * length s + 4)%nat -> post (tokpost s) (p_expr R ign s)) /\
+  (forall ign i a ii aa, (f >= 6 * length i + 5)%nat -> is_none a = false ->
+      (length ii <= length i)%nat -> (is_none aa = false -> (length ii < length i)%nat) ->
+      post (somepost i) (p_expr_loop R ign i a ii aa)) /\
+  (forall s, (f >= 6 * length s + 6)%nat -> post (somepost s) (p_fn_lit R s)) /\
+  (forall ign s, (f >= 6 * length s + 3)%nat -> post (tokpost s) (p_factor R ign s)) /\
+  (forall s a aa ar dy dv, (f >= 6 * length s + 5)%nat -> post (somepost s) (p_apply_adverbs R s a aa ar dy dv)) /\
+  (forall s, (f >= 6 * length s + 5)%nat -> post (lenpost s) (p_read_fn_args R s)) /\
+  (forall s k acc, (f >= 6 * length s + 5)%nat -> post (lenpost s) (p_fn_args_loop R s k acc)) /\
+  (forall s, (f >= 6 * length s + 5)%nat -> post (somepost s) (p_read_cond R s)) /\
+  (forall s acc, (f >= 6 * length s + 5)%nat -> post (lenpost s) (p_expr_array_loop R s acc)).
+
+Lemma cexpect_post : forall s c, post (fun s' => length s = S (length s')) (cexpect s c).
+Proof. intros [|x r] c; cbn; [exact I|]. destruct (x =? c); cbn; auto. Qed.
+
+Lemma mk_call_some : forall a fa n, is_none (mk_call a fa n) = false.
+Proof. intros. unfold mk_call. destruct (has_none fa); reflexivity. Qed.
+
+Lemma get_fn_arity_post : forall a, post (fun _ => True) (get_fn_arity E a).
+Proof.
+  intros a. unfold get_fn_arity.
+  destruct a; try exact I; destruct a1; try exact I; destruct (str_in s (reserved E)); try exact I;
+    destruct a2; try exact I; destruct (forallb hashable l); exact I.
+Qed.
+
+Ltac la := cbn [length fst snd tl] in *; lia.
+
+Section Bodies.
+Variables (f : nat) (L : lexfuns) (R : parsefuns).
+Hypothesis HL : lex_ok f L.
+Hypothesis HR : parse_ok f R.
+
+Let Hkg := proj1 HL.
+Let Hprog := proj1 HR.
+Let Hexpr := proj1 (proj2 HR).
+Let Hloop := proj1 (proj2 (proj2 HR)).
+Let Hfnlit := proj1 (proj2 (proj2 (proj2 HR))).
+Let Hfactor := proj1 (proj2 (proj2 (proj2 (proj2 HR)))).
+Let Hadv := proj1 (proj2 (proj2 (proj2 (proj2 (proj2 HR))))).
+Let Hargs := proj1 (proj2 (proj2 (proj2 (proj2 (proj2 (proj2 HR)))))).
+Let Hargsl := proj1 (proj2 (proj2 (proj2 (proj2 (proj2 (proj2 (proj2 HR))))))).
+Let Hcond := proj1 (proj2 (proj2 (proj2 (proj2 (proj2 (proj2 (proj2 (proj2 HR)))))))).
+Let Hearr := proj2 (proj2 (proj2 (proj2 (proj2 (proj2 (proj2 (proj2 (proj2 HR)))))))).
+
+Lemma prog_loop_body_ok : forall ign s acc, (S f >= 6 * length s + 5)%nat ->
+  post (lenpost s) (prog_loop_body f L R ign s acc).
+Proof.
+  intros ign s acc Hf. unfold prog_loop_body. destruct s as [|c0 s0]; [okpost|].
+  eapply post_bind; [apply Hexpr; la|]. intros [s1 q] (H1 & H2 & H3). cbn [fst snd] in *.
+  destruct (is_none q) eqn:Hq; cbn [orb].
+  { specialize (H3 eq_refl). subst s1. eapply post_weaken; [apply Hprog; la|]. intros p Hp. okpost. }
+  specialize (H2 eq_refl).
+  destruct (str_is q [59]).
+  { eapply post_weaken; [apply Hprog; la|]. intros p Hp. okpost. }
+  eapply post_bind; [apply Hkg; la|]. intros [ii c] (G1 & G2 & G3). cbn [fst snd] in *.
+  destruct (str_is c [59]); [|okpost].
+  eapply post_weaken; [apply Hprog; la|]. intros p Hp. okpost.
+Qed.
+
+Lemma mark_dyad_none : forall a, is_none (mark_dyad E a) = is_none a.
+Proof. intros a. destruct a; try reflexivity. cbn. destruct (str_in s (dyads E)); reflexivity. Qed.
+
+Lemma expr_body_ok : forall ign s, (S f >= 6 * length s + 4)%nat -> post (tokpost s) (expr_body E f L R ign s).
+Proof.
+  intros ign s Hf. unfold expr_body.
+  eapply post_bind; [apply Hfactor; la|]. intros [s1 a] (H1 & H2 & H3). cbn [fst snd] in *.
+  destruct (is_none a) eqn:Ha; cbn [orb].
+  { okpost. auto. }
+  specialize (H2 eq_refl).
+  destruct (str_is a [59]); [okpost|].
+  eapply post_bind; [apply Hkg; la|]. intros [ii aa] (G1 & G2 & G3). cbn [fst snd] in *.
+  eapply post_weaken; [apply Hloop; try rewrite mark_dyad_none; auto; la|].
+  intros p (P1 & P2). unfold tokpost. rewrite P2. repeat split; intros; try discriminate; la.
+Qed.
+
+Lemma adverb_tail_ok : forall s0 a0, (f >= 6 * length s0 + 5)%nat -> is_none a0 = false ->
+  post (somepost s0) (adverb_tail E R s0 a0).
+Proof.
+  intros s0 a0 Hf Ha. unfold adverb_tail. pose proof (peek_adverb_le s0) as Hp.
+  destruct (peek_adverb E s0) as [i3 adv]. cbn [fst] in Hp.
+  destruct adv as [av|]; [|okpost].
+  eapply post_weaken; [apply Hadv; la|]. intros p (P1 & P2). okpost.
+Qed.
+
+Lemma fn_lit_body_ok : forall s, (S f >= 6 * length s + 6)%nat -> post (somepost s) (fn_lit_body E f L R s).
+Proof.
+  intros s Hf. unfold fn_lit_body.
+  eapply post_bind; [apply Hprog; la|]. intros [s2 p] Hp. unfold lenpost in Hp. cbn [fst] in Hp.
+  eapply post_bind; [apply skip_total; la|]. intros s3 Hs3. unfold strpost in Hs3.
+  eapply post_bind; [apply cexpect_post|]. intros s4 Hs4.
+  eapply post_bind; [apply get_fn_arity_post|]. intros ar _.
+  destruct (starts_call s4); [|okpost].
+  eapply post_bind; [apply Hargs; la|]. intros [s5 fa] Hfa. unfold lenpost in Hfa. cbn [fst] in Hfa.
+  cbn [post]. split; cbn [fst snd]; [la|apply mk_call_some].
+Qed.
+
+Lemma apply_adverbs_body_ok : forall s a aa ar dy dv, (S f >= 6 * length s + 5)%nat ->
+  post (somepost s) (apply_adverbs_body E f L R s a aa ar dy dv).
+Proof.
+  intros s a aa ar dy dv Hf. unfold apply_adverbs_body. pose proof (peek_more_le s) as Hp.
+  destruct (peek_more E s) as [s1 more]. cbn [fst] in Hp.
+  eapply post_bind; [apply Hexpr; la|]. intros [s2 e] (H1 & _). cbn [fst snd] in *. okpost.
+Qed.
+
+Lemma read_fn_args_body_ok : forall s, (S f >= 6 * length s + 5)%nat -> post (lenpost s) (read_fn_args_body f L R s).
+Proof.
+  intros s Hf. unfold read_fn_args_body.
+  eapply post_bind with (P := fun s1 => (length s1 < length s)%nat).
+  { destruct s as [|x [|y r]]; cbn [starts1 starts2]; try exact I.
+    - destruct (x =? 40); cbn; [lia|exact I].
+    - destruct (x =? 40); cbn [post tl length]; [lia|]. destruct ((x =? 58) && (y =? 40)); cbn; [lia|exact I]. }
+  intros s1 Hs1. pose proof (tl_le _ s1).
+  destruct (starts1 s1 41); [okpost|].
+  eapply post_weaken; [apply Hargsl; la|]. intros p Hp. okpost.
+Qed.
+
+Lemma fn_args_loop_body_ok : forall s k acc, (S f >= 6 * length s + 5)%nat ->
+  post (lenpost s) (fn_args_loop_body f L R s k acc).
+Proof.
+  intros s k acc Hf. unfold fn_args_loop_body.
+  eapply post_bind; [apply Hkg; la|]. intros [ii c] (G1 & G2 & G3). cbn [fst snd] in *.
+  destruct (str_is c [59]) eqn:Hc59.
+  { assert (is_none c = false) by (destruct c; try discriminate; reflexivity). specialize (G2 H).
+    eapply post_weaken; [apply Hargsl; la|]. intros p Hp. okpost. }
+  destruct (str_is c [41]).
+  { eapply post_bind; [apply cexpect_post|]. intros s' Hs'. okpost. }
+  eapply post_bind; [apply Hexpr; la|]. intros [s1 a] (H1 & H2 & H3). cbn [fst snd] in *.
+  destruct (is_none a) eqn:Ha.
+  { eapply post_bind; [apply cexpect_post|]. intros s' Hs'. okpost. }
+  specialize (H2 eq_refl).
+  eapply post_weaken; [apply Hargsl; la|]. intros p Hp. okpost.
+Qed.
+
+Lemma read_cond_body_ok : forall s, (S f >= 6 * length s + 5)%nat -> post (somepost s) (read_cond_body E f L R s).
+Proof.
+  intros s Hf. unfold read_cond_body.
+  eapply post_bind; [apply Hexpr; la|]. intros [s1 n1] (H1 & _). cbn [fst snd] in *.
+  eapply post_bind; [apply cexpect_post|]. intros s2 Hs2.
+  eapply post_bind; [apply Hexpr; la|]. intros [s3 n2] (H3 & _). cbn [fst snd] in *.
+  eapply post_bind; [apply skip_total; la|]. intros s4 Hs4. unfold strpost in Hs4.
+  destruct (starts2 s4 58 124) eqn:Hc.
+  { destruct s4 as [|x [|y r]]; cbn [starts2] in Hc; try discriminate.
+    eapply post_bind; [apply Hcond; la|]. intros [s5 n3] (H5 & _). okpost. }
+  eapply post_bind; [apply cexpect_post|]. intros s5 Hs5.
+  eapply post_bind; [apply Hexpr; la|]. intros [s6 n3] (H6 & _). cbn [fst snd] in *.
+  eapply post_bind; [apply skip_total; la|]. intros s7 Hs7. unfold strpost in Hs7.
+  eapply post_bind; [apply cexpect_post|]. intros s8 Hs8. okpost.
+Qed.
+
+Lemma expr_array_loop_body_ok : forall s acc, (S f >= 6 * length s + 5)%nat ->
+  post (lenpost s) (expr_array_loop_body E f L R s acc).
+Proof.
+  intros s acc Hf. unfold expr_array_loop_body.
+  destruct (starts1 s 93 || match s with [] => true | _ :: _ => false end) eqn:Hend.
+  { pose proof (tl_le _ s). destruct (starts1 s 93); okpost. }
+  destruct s as [|c0 s0]; [rewrite orb_true_r in Hend; discriminate|].
+  eapply post_bind; [apply Hexpr; la|]. intros [s1 e] (H1 & H2 & H3). cbn [fst snd] in *.
+  assert (Hlt : (length s1 < length (c0 :: s0))%nat).
+  { destruct (is_none e); [rewrite (H3 eq_refl); cbn; lia | apply H2; reflexivity]. }
+  eapply post_bind; [apply skip_total; la|]. intros s2 Hs2. unfold strpost in Hs2.
+  pose proof (tl_le _ s2).
+  destruct (starts1 s2 59).
+  { eapply post_bind; [apply skip_total; la|]. intros s3 Hs3. unfold strpost in Hs3.
+    eapply post_weaken; [apply Hearr; la|]. intros p Hp. okpost. }
+  destruct (starts1 s2 93); [okpost|].
+  eapply post_weaken; [apply Hearr; la|]. intros p Hp. okpost.
+Qed.
+
+Lemma expr_loop_body_ok : forall ign i a ii aa, (S f >= 6 * length i + 5)%nat -> is_none a = false ->
+  (length ii <= length i)%nat -> (is_none aa = false -> (length ii < length i)%nat) ->
+  post (somepost i) (expr_loop_body E f L R ign i a ii aa).
+Proof.
+  intros ign i a ii aa Hf Ha Hii Hlt. unfold expr_loop_body.
+  destruct (is_op aa || is_sym aa || str_is aa [123]) eqn:Hc.
+  - assert (Hn : is_none aa = false) by (destruct aa; try reflexivity; discriminate).
+    specialize (Hlt Hn).
+    eapply post_bind with (P := somepost ii).
+    { destruct (str_is aa [123]).
+      - apply Hfnlit. la.
+      - destruct (is_sym aa && starts_call ii).
+        + eapply post_bind; [apply Hargs; la|]. intros [i2 fa] Hfa. unfold lenpost in Hfa.
+          cbn [post]. split; cbn [fst snd] in *; [la|apply mk_call_some].
+        + okpost. }
+    intros [i1 aa1] (H1 & H1n). cbn [fst snd] in *.
+    pose proof (peek_adverb_le i1) as Hp. destruct (peek_adverb E i1) as [i3 adv]. cbn [fst] in Hp.
+    eapply post_bind with (P := somepost i1).
+    { destruct adv as [av|].
+      - eapply post_weaken; [apply Hadv; la|]. intros p (P1 & P2). okpost.
+      - eapply post_bind; [apply Hexpr; la|]. intros [i5 aaa] (Q1 & _). okpost. }
+    intros [i4 a1] (H4 & H4n). cbn [fst snd] in *.
+    eapply post_bind; [apply Hkg; la|]. intros [ii2 aa2] (G1 & G2 & G3). cbn [fst snd] in *.
+    eapply post_weaken; [apply Hloop; auto; la|]. intros p (P1 & P2). okpost.
+  - destruct (ign && str_is a [10]); [|okpost].
+    eapply post_bind; [apply skip_total; la|]. intros i1 Hi1. okpost.
+Qed.
+
+Lemma factor_body_ok : forall ign s, (S f >= 6 * length s + 3)%nat -> post (tokpost s) (factor_body E f L R ign s).
+Proof.
+  intros ign s Hf. unfold factor_body.
+  eapply post_bind; [apply skip_total; la|]. intros ii Hii. unfold strpost in Hii.
+  destruct (starts2 ii 91 59) eqn:Hea.
+  { destruct ii as [|x [|y r]]; cbn [starts2] in Hea; try discriminate. cbn [tl length] in *.
+    eapply post_bind; [apply skip_total; la|]. intros s0 Hs0. unfold strpost in Hs0.
+    eapply post_bind; [apply Hearr; la|]. intros [s1 ex] Hex. okpost. }
+  eapply post_bind; [apply Hkg; la|]. intros [s1 a] (H1 & H2 & H3). cbn [fst snd] in *.
+  destruct (is_none a) eqn:Ha; [okpost; auto|]. specialize (H2 eq_refl).
+  assert (Htail : forall s2 a2, (length s2 <= length s1)%nat -> is_none a2 = false ->
+                  post (tokpost s) (adverb_tail E R s2 a2)).
+  { intros s2 a2 Hs2 Ha2. eapply post_weaken; [apply adverb_tail_ok; [la|exact Ha2]|].
+    intros p (P1 & P2). unfold tokpost. rewrite P2. repeat split; intros; try discriminate; la. }
+  destruct (str_is a [123]).
+  { eapply post_bind; [apply Hfnlit; la|]. intros [s2 a2] (P1 & P2). apply Htail; assumption. }
+  destruct (is_sym a).
+  { destruct (starts_call s1); [|apply Htail; [lia|exact Ha]].
+    eapply post_bind; [apply Hargs; la|]. intros [s2 fa] Hfa. unfold lenpost in Hfa. cbn [fst] in Hfa.
+    destruct (sym_is a dot_comment).
+    - eapply post_bind with (P := fun _ => True).
+      { unfold comment_marker. destruct fa as [|x ?]; [exact I|]. destruct x; exact I. }
+      intros m _.
+      eapply post_bind; [apply read_sys_comment_total; la|]. intros s3 Hs3. unfold strpost in Hs3.
+      eapply post_weaken; [apply Hfactor; la|]. intros p Hp. eapply tokpost_le; [|exact Hp]. lia.
+    - eapply post_bind with (P := fun _ => True).
+      { destruct (sym_is a dot_module); [|exact I]. destruct fa; exact I. }
+      intros _ _. apply Htail; [lia|apply mk_call_some]. }
+  destruct (is_monad_op E a).
+  { pose proof (peek_adverb_le s1) as Hp. destruct (peek_adverb E s1) as [i3 adv]. cbn [fst] in Hp.
+    destruct adv as [av|].
+    - eapply post_weaken; [apply Hadv; la|]. intros p (P1 & P2).
+      unfold tokpost. rewrite P2. repeat split; intros; try discriminate; la.
+    - eapply post_bind; [apply Hexpr; la|]. intros [s2 aa] (Q1 & _). okpost. }
+  destruct (str_is a [40]).
+  { eapply post_bind; [apply Hexpr; la|]. intros [s2 a2] (Q1 & Q2 & Q3). cbn [fst snd] in *.
+    eapply post_bind; [apply cexpect_post|]. intros s3 Hs3.
+    cbn [post]. unfold tokpost. cbn [fst snd]. repeat split; intros; try la.
+    specialize (Q3 H). subst s2. cbn in Hs3. discriminate. }
+  destruct (str_is a [58; 91]).
+  { eapply post_weaken; [apply Hcond; la|]. intros p (P1 & P2).
+    unfold tokpost. rewrite P2. repeat split; intros; try discriminate; la. }
+  okpost.
+Qed.
+
+End Bodies.
+
+Lemma prog_loop_S : forall f ign s acc, prog_loop E (S f) ign s acc = prog_loop_body f (lexrec E f) (parserec E f) ign s acc.
+Proof. reflexivity. Qed.
+Lemma expr_S : forall f ign s, expr E (S f) ign s = expr_body E f (lexrec E f) (parserec E f) ign s.
+Proof. reflexivity. Qed.
+Lemma expr_loop_S : forall f ign i a ii aa,
+  expr_loop E (S f) ign i a ii aa = expr_loop_body E f (lexrec E f) (parserec E f) ign i a ii aa.
+Proof. reflexivity. Qed.
+Lemma fn_lit_S : forall f s, fn_lit E (S f) s = fn_lit_body E f (lexrec E f) (parserec E f) s.
+Proof. reflexivity. Qed.
+Lemma factor_S : forall f ign s, factor E (S f) ign s = factor_body E f (lexrec E f) (parserec E f) ign s.
+Proof. reflexivity. Qed.
+Lemma apply_adverbs_S : forall f s a aa ar dy dv,
+  apply_adverbs E (S f) s a aa ar dy dv = apply_adverbs_body E f (lexrec E f) (parserec E f) s a aa ar dy dv.
+Proof. reflexivity. Qed.
+Lemma read_fn_args_S : forall f s, read_fn_args E (S f) s = read_fn_args_body f (lexrec E f) (parserec E f) s.
+Proof. reflexivity. Qed.
+Lemma fn_args_loop_S : forall f s k acc,
+  fn_args_loop E (S f) s k acc = fn_args_loop_body f (lexrec E f) (parserec E f) s k acc.
+Proof. reflexivity. Qed.
+Lemma read_cond_S : forall f s, read_cond E (S f) s = read_cond_body E f (lexrec E f) (parserec E f) s.
+Proof. reflexivity. Qed.
+Lemma expr_array_loop_S : forall f s acc,
+  expr_array_loop E (S f) s acc = expr_array_loop_body E f (lexrec E f) (parserec E f) s acc.
+Proof. reflexivity. Qed.
+
+Lemma parse_total : forall f, parse_ok f (parserec E f).
+Proof.
+  induction f as [|f IH].
+  - unfold parse_ok. repeat split; intros; lia.
+  - pose proof (lex_total f) as HL. unfold parse_ok, parserec, mkrec.
+    repeat split; cbn [p_prog_loop p_expr p_expr_loop p_fn_lit p_factor p_apply_adverbs p_read_fn_args
+                        p_fn_args_loop p_read_cond p_expr_array_loop]; intros.
+    + rewrite prog_loop_S. apply prog_loop_body_ok; assumption.
+    + rewrite expr_S. apply expr_body_ok; assumption.
+    + rewrite expr_loop_S. apply expr_loop_body_ok; assumption.
+    + rewrite fn_lit_S. apply fn_lit_body_ok; assumption.
+    + rewrite factor_S. apply factor_body_ok; assumption.
+    + rewrite apply_adverbs_S. apply apply_adverbs_body_ok; assumption.
+    + rewrite read_fn_args_S. apply read_fn_args_body_ok; assumption.
+    + rewrite fn_args_loop_S. apply fn_args_loop_body_ok; assumption.
+    + rewrite read_cond_S. apply read_cond_body_ok; assumption.
+    + rewrite expr_array_loop_S. apply expr_array_loop_body_ok; assumption.
+Qed.
+
+(* prog never runs out of fuel with fuel_for (length t), and the index it returns is inside the text *)
+Lemma prog_total : forall t fuel, (fuel >= fuel_for (length t))%nat ->
+  post (lenpost t) (prog E fuel t).
+Proof.
+  intros t fuel Hf. unfold prog. apply (proj1 (parse_total fuel)). unfold fuel_for in Hf. lia.
+Qed.
 
 End P.
+
+(* ------------------------------------------------------------------ fuel monotonicity (no hypothesis on the environment) *)
+Section Mono.
+Variable E : env.
+
+(* both sides always have the same shape: descend through binds and case distinctions in parallel *)
+Ltac mono_step :=
+  first
+    [ apply le_refl
+    | apply le_oof
+    | solve [auto]
+    | apply le_bind; [ | intros ? ]
+    | match goal with
+      | |- le_res (match ?x with _ => _ end) _ => destruct x; cbv beta iota zeta
+      end ].
+Ltac mono := cbv beta iota zeta; repeat mono_step.
+
+Lemma skip_S : forall f ign s, skip E (S f) ign s =
+  (let s1 := skip_space E ign s in
+   if starts2 s1 58 34 then skip E f false (read_shifted_comment (tl (tl s1))) else Ok s1).
+Proof. reflexivity. Qed.
+
+Lemma skip_mono : forall f ign s, le_res (skip E f ign s) (skip E (S f) ign s).
+Proof.
+  induction f as [|f IH]; intros ign s; [apply le_oof|].
+  rewrite (skip_S f), (skip_S (S f)). mono.
+Qed.
+
+Lemma comment_run_S : forall f a s j, comment_run E (S f) a s j =
+  (if (if comment_guard E then negb (match a with [] => true | _ => false end) else true) && starts_with a s
+   then comment_run E f a (tl s) (S j) else Ok j).
+Proof. reflexivity. Qed.
+
+Lemma comment_run_mono : forall f a s j, le_res (comment_run E f a s j) (comment_run E (S f) a s j).
+Proof.
+  induction f as [|f IH]; intros a s j; [apply le_oof|].
+  rewrite (comment_run_S f), (comment_run_S (S f)). mono.
+Qed.
+
+Lemma read_sys_comment_mono : forall f s a, le_res (read_sys_comment E f s a) (read_sys_comment E (S f) s a).
+Proof. intros. unfold read_sys_comment. pose proof comment_run_mono. mono. Qed.
+
+Definition le_lex (R R' : lexfuns) : Prop :=
+  (forall rn ign s, le_res (l_kg_read R rn ign s) (l_kg_read R' rn ign s)) /\
+  (forall d s, le_res (l_read_list R d s) (l_read_list R' d s)) /\
+  (forall d s acc, le_res (l_read_list_loop R d s acc) (l_read_list_loop R' d s acc)).
+
+Definition le_parse (R R' : parsefuns) : Prop :=
+  (forall ign s acc, le_res (p_prog_loop R ign s acc) (p_prog_loop R' ign s acc)) /\
+  (forall ign s, le_res (p_expr R ign s) (p_expr R' ign s)) /\
+  (forall ign i a ii aa, le_res (p_expr_loop R ign i a ii aa) (p_expr_loop R' ign i a ii aa)) /\
+  (forall s, le_res (p_fn_lit R s) (p_fn_lit R' s)) /\
+  (forall ign s, le_res (p_factor R ign s) (p_factor R' ign s)) /\
+  (forall s a aa ar dy dv, le_res (p_apply_adverbs R s a aa ar dy dv) (p_apply_adverbs R' s a aa ar dy dv)) /\
+  (forall s, le_res (p_read_fn_args R s) (p_read_fn_args R' s)) /\
+  (forall s k acc, le_res (p_fn_args_loop R s k acc) (p_fn_args_loop R' s k acc)) /\
+  (forall s, le_res (p_read_cond R s) (p_read_cond R' s)) /\
+  (forall s acc, le_res (p_expr_array_loop R s acc) (p_expr_array_loop R' s acc)).
+
+Section Step.
+Variables (f : nat) (L L' : lexfuns) (R R' : parsefuns).
+Hypothesis HL : le_lex L L'.
+Hypothesis HR : le_parse R R'.
+
+Ltac prep := pose proof skip_mono as Hskip; pose proof read_sys_comment_mono as Hcom;
+  destruct HL as (Hkg & Hrl & Hrll);
+  destruct HR as (Hprog & Hexpr & Hloop & Hfnlit & Hfactor & Hadv & Hargs & Hargsl & Hcond & Hearr).
+
+Ltac prepL := pose proof skip_mono as Hskip; destruct HL as (Hkg & Hrl & Hrll).
+
+Lemma kg_read_body_mono : forall rn ign s, le_res (kg_read_body E f L rn ign s) (kg_read_body E (S f) L' rn ign s).
+Proof. intros. prepL. unfold kg_read_body. mono. Qed.
+Lemma read_list_body_mono : forall d s, le_res (read_list_body E f L d s) (read_list_body E (S f) L' d s).
+Proof. intros. prepL. unfold read_list_body. mono. Qed.
+Lemma read_list_loop_body_mono : forall d s acc,
+  le_res (read_list_loop_body E f L d s acc) (read_list_loop_body E (S f) L' d s acc).
+Proof. intros. prepL. unfold read_list_loop_body. mono. Qed.
+
+Lemma prog_loop_body_mono : forall ign s acc, le_res (prog_loop_body f L R ign s acc) (prog_loop_body (S f) L' R' ign s acc).
+Proof. intros. prep. unfold prog_loop_body. mono. Qed.
+Lemma expr_body_mono : forall ign s, le_res (expr_body E f L R ign s) (expr_body E (S f) L' R' ign s).
+Proof. intros. prep. unfold expr_body. mono. Qed.
+Lemma expr_loop_body_mono : forall ign i a ii aa,
+  le_res (expr_loop_body E f L R ign i a ii aa) (expr_loop_body E (S f) L' R' ign i a ii aa).
+Proof. intros. prep. unfold expr_loop_body. mono. Qed.
+Lemma fn_lit_body_mono : forall s, le_res (fn_lit_body E f L R s) (fn_lit_body E (S f) L' R' s).
+Proof. intros. prep. unfold fn_lit_body. mono. Qed.
+Lemma adverb_tail_mono : forall s a, le_res (adverb_tail E R s a) (adverb_tail E R' s a).
+Proof. intros. prep. unfold adverb_tail. mono. Qed.
+Lemma factor_body_mono : forall ign s, le_res (factor_body E f L R ign s) (factor_body E (S f) L' R' ign s).
+Proof. intros. prep. pose proof adverb_tail_mono as Htail. unfold factor_body. mono. Qed.
+Lemma apply_adverbs_body_mono : forall s a aa ar dy dv,
+  le_res (apply_adverbs_body E f L R s a aa ar dy dv) (apply_adverbs_body E (S f) L' R' s a aa ar dy dv).
+Proof. intros. prep. unfold apply_adverbs_body. mono. Qed.
+Lemma read_fn_args_body_mono : forall s, le_res (read_fn_args_body f L R s) (read_fn_args_body (S f) L' R' s).
+Proof. intros. prep. unfold read_fn_args_body. mono. Qed.
+Lemma fn_args_loop_body_mono : forall s k acc, le_res (fn_args_loop_body f L R s k acc) (fn_args_loop_body (S f) L' R' s k acc).
+Proof. intros. prep. unfold fn_args_loop_body. mono. Qed.
+Lemma read_cond_body_mono : forall s, le_res (read_cond_body E f L R s) (read_cond_body E (S f) L' R' s).
+Proof. intros. prep. unfold read_cond_body. mono. Qed.
+Lemma expr_array_loop_body_mono : forall s acc,
+  le_res (expr_array_loop_body E f L R s acc) (expr_array_loop_body E (S f) L' R' s acc).
+Proof. intros. prep. unfold expr_array_loop_body. mono. Qed.
+End Step.
+
+Lemma lex_mono_step : forall f, le_lex (lexrec E f) (lexrec E (S f)).
+Proof.
+  induction f as [|f IH].
+  - repeat split; intros; apply le_oof.
+  - unfold lexrec. repeat split; cbn [l_kg_read l_read_list l_read_list_loop]; intros.
+    + rewrite (kg_read_S E f), (kg_read_S E (S f)). apply kg_read_body_mono; assumption.
+    + rewrite (read_list_S E f), (read_list_S E (S f)). apply read_list_body_mono; assumption.
+    + rewrite (read_list_loop_S E f), (read_list_loop_S E (S f)). apply read_list_loop_body_mono; assumption.
+Qed.
+
+Lemma parse_mono_step : forall f, le_parse (parserec E f) (parserec E (S f)).
+Proof.
+  induction f as [|f IH].
+  - unfold le_parse. repeat split; intros; apply le_oof.
+  - pose proof (lex_mono_step f) as HL. unfold le_parse, parserec, mkrec.
+    repeat split; cbn [p_prog_loop p_expr p_expr_loop p_fn_lit p_factor p_apply_adverbs p_read_fn_args
+                        p_fn_args_loop p_read_cond p_expr_array_loop]; intros.
+    + rewrite (prog_loop_S E f), (prog_loop_S E (S f)). apply prog_loop_body_mono; assumption.
+    + rewrite (expr_S E f), (expr_S E (S f)). apply expr_body_mono; assumption.
+    + rewrite (expr_loop_S E f), (expr_loop_S E (S f)). apply expr_loop_body_mono; assumption.
+    + rewrite (fn_lit_S E f), (fn_lit_S E (S f)). apply fn_lit_body_mono; assumption.
+    + rewrite (factor_S E f), (factor_S E (S f)). apply factor_body_mono; assumption.
+    + rewrite (apply_adverbs_S E f), (apply_adverbs_S E (S f)). apply apply_adverbs_body_mono; assumption.
+    + rewrite (read_fn_args_S E f), (read_fn_args_S E (S f)). apply read_fn_args_body_mono; assumption.
+    + rewrite (fn_args_loop_S E f), (fn_args_loop_S E (S f)). apply fn_args_loop_body_mono; assumption.
+    + rewrite (read_cond_S E f), (read_cond_S E (S f)). apply read_cond_body_mono; assumption.
+    + rewrite (expr_array_loop_S E f), (expr_array_loop_S E (S f)). apply expr_array_loop_body_mono; assumption.
+Qed.
+
+Lemma prog_mono_step : forall f t, le_res (prog E f t) (prog E (S f) t).
+Proof. intros f t. unfold prog. exact (proj1 (parse_mono_step f) false t []). Qed.
+
+Lemma prog_mono_le : forall f f' t, (f <= f')%nat -> le_res (prog E f t) (prog E f' t).
+Proof.
+  intros f f' t H. induction H as [|f' H IH]; [apply le_refl|].
+  eapply le_trans; [exact IH|apply prog_mono_step].
+Qed.
+
+(* more fuel never changes a result that is not OutOfFuel *)
+Lemma prog_mono : forall f f' t r, (f <= f')%nat -> prog E f t = r -> r <> OOF -> prog E f' t = r.
+Proof.
+  intros f f' t r H Hr Hn. subst r. apply le_eq; [apply prog_mono_le; exact H|exact Hn].
+Qed.
+
+End Mono.
+
+(* ------------------------------------------------------------------ the unguarded marker loop (pre-fix read_sys_comment) *)
+Lemma comment_run_unguarded_loops : forall E, comment_guard E = false ->
+  forall fuel s j, comment_run E fuel [] s j = OOF.
+Proof.
+  intros E Hg. induction fuel as [|f IH]; intros s j; [reflexivity|].
+  cbn [comment_run]. rewrite Hg. cbn [starts_with andb]. apply IH.
+Qed.
+
+Lemma read_sys_comment_unguarded_loops : forall E, comment_guard E = false ->
+  forall fuel s, read_sys_comment E fuel s [] = OOF.
+Proof.
+  intros E Hg fuel s. unfold read_sys_comment.
+  assert (H : find_sub [] s = Some O) by (destruct s; reflexivity). rewrite H.
+  rewrite comment_run_unguarded_loops by exact Hg. reflexivity.
+Qed.
+
+(* explicit forms of the statements used in Properties.v *)
+Lemma prog_total_explicit : forall E, z_in 59 (delims E) = true -> comment_guard E = true ->
+  forall t fuel, (fuel >= fuel_for (length t))%nat ->
+  match prog E fuel t with
+  | Ok p => (length (fst p) <= length t)%nat
+  | Err _ => True
+  | OOF => False
+  end.
+Proof. intros E H1 H2 t fuel Hf. exact (prog_total E H1 H2 t fuel Hf). Qed.
+
+Lemma prog_never_oof : forall E, z_in 59 (delims E) = true -> comment_guard E = true ->
+  forall t, prog E (fuel_for (length t)) t <> OOF.
+Proof. intros E H1 H2 t. eapply post_not_oof. apply (prog_total E H1 H2). lia. Qed.
+
+Lemma prog_fuel_irrelevant : forall E, z_in 59 (delims E) = true -> comment_guard E = true ->
+  forall t fuel, (fuel >= fuel_for (length t))%nat -> prog E fuel t = prog E (fuel_for (length t)) t.
+Proof.
+  intros E H1 H2 t fuel Hf. eapply prog_mono; [exact Hf|reflexivity|apply prog_never_oof; assumption].
+Qed.
+
+Lemma kg_read_total_explicit : forall E, z_in 59 (delims E) = true ->
+  forall fuel rn ign s, (fuel >= 6 * length s + 2)%nat ->
+  match kg_read E fuel rn ign s with
+  | Ok p => (length (fst p) <= length s)%nat /\
+            (is_none (snd p) = false -> (length (fst p) < length s)%nat) /\
+            (is_none (snd p) = true -> fst p = [])
+  | Err _ => True
+  | OOF => False
+  end.
+Proof. intros E H fuel rn ign s Hf. exact (kg_read_total E H fuel rn ign s Hf). Qed.
